@@ -133,6 +133,23 @@ CLAIMED["C34"] = (
     "DESIGN.md section 6 C34",
 )
 
+CLAIMED["C03"] = (
+    "Each shipped model (SinglePhaseFlow, MassAndEnergyBalance, MomentumBalance, Poromechanics, "
+    "Thermoporomechanics; unfractured and with one Cartesian fracture, incl. the contact-mechanics "
+    "complementarity equations) is prepared concretely and EquationSystem.assemble is executed on a symbolic "
+    "state, symbolic previous-time values and the same symbols stored as current iterate. The real parser, "
+    "constitutive laws and forward-mode AD produce residual and Jacobian terms; non-smooth operators "
+    "(maximum, characteristic functions, norms) fork on the code's own comparisons and every feasible branch "
+    "is explored. z3 decides J_ij = -d b_i/d x_j for every entry (independent symbolic differentiator; exp as "
+    "an uninterpreted symbol with range axioms) and residual-only assembly = b. Witnesses are replayed on the "
+    "float model; counterexamples are confirmed by central differences of the real assembled residual.",
+    "Floats as exact reals (two-stage exact / 1e-9 tolerance equality); discretization matrices fixed at prepared "
+    "values; 2x2 Cartesian grids, <= 1 fracture; state within +-1 of the initial state; quick tier: 5 unfractured/"
+    "flow configurations, thorough: all 9 incl. contact mechanics (path budget 64 per model in quick).",
+    "symbolic execution of model assembly on z3 terms + symbolic differentiation + SMT",
+    "DESIGN.md section 6 C03",
+)
+
 NOT_APPLICABLE = {
     "C11": "MPFA local systems are inverted in LAPACK/numba kernels on data-dependent block structures; a symbolic inverse of the interaction-region blocks is beyond z3/cvc5 and with concrete matrices nothing quantified remains for a solver.",
     "C13": "MPSA: same obstacle as C11 with 2-3x larger local systems.",
